@@ -91,6 +91,7 @@ import JdProofs.V1KeysDiffPatchA
 import JdProofs.V1Precision
 import JdProofs.OptSites
 import JdProps.C17Precision
+import JdProps.C17PrecisionKeys
 
 set_option autoImplicit false
 
